@@ -6,7 +6,8 @@ ID = "C20"
 LEAN_MODULES = ["NakenVerif.Props.C20"]
 P = "NakenVerif.Link.C20."
 THEOREMS = [P + n for n in [
-    "link_places_reachable_once", "unreferenced_not_included", "link_address_recorded", "link_bytes_preserved",
+    "link_places_reachable_once", "unreferenced_not_included", "link_address_recorded", "link_regions_consecutive",
+    "link_bytes_preserved",
     "link_bytes_are_relocated", "jal_bound_to_final", "r_mips_26", "unresolved_is_error",
     "program_reference_unresolved_is_error", "unsupported_object_is_error", "verify_accepts_only_elf32_le",
     "link_terminates", "readers_never_read_outside", "j_relocation_ignored_counterexample",
